@@ -1,6 +1,21 @@
 """C14 - decided on the request-level model: proofs in coq/theories/Props/C14.v, predicate p_c14
-(coq/theories/Spec/Preds.v) evaluated on the implementation's observations, projection facets 10,13,19,157."""
+(coq/theories/Spec/Preds.v) evaluated on the implementation's observations, projection facets 10,13,19,157;
+plus the PID codec (MakeOAuth2PID / ParseOAuth2PID) against Model/Codecs.v and Model/PidCodec.v (tools/pidcheck.py)."""
 import worldprop
 
 P = worldprop.WorldProp("C14", "p_c14", [('oauth2', 300, 6000)], {10,13,19,157})
-run, replay = P.run, P.replay
+replay = P.replay
+
+
+def run(out, prelude):
+    import vlib
+    import pidcheck
+    hs = P.run(out, prelude)
+    if hs is None:
+        return
+    ok, _, binp = vlib.build_harness()
+    if ok:
+        n, nbad = pidcheck.run(out, binp, vlib.tier() == "thorough")
+        out.cov["rule"] = out.cov.get("rule", "") + ("; plus %d make / parse cases of the OAuth2 PID codec on the real library (every pair of a "
+                                                     "hostile fragment corpus - separators inside provider and uid, empty parts, the word "
+                                                     "'oauth2' - and random compositions) compared with make_pid / parse_pid" % n)
